@@ -212,6 +212,10 @@ func (s *PfcpServer) receiver(wg *sync.WaitGroup) {
 		}
 
 		s.log.Tracef("receiver reads message(len=%d)", n)
+		if n == 0 {
+			// an empty datagram is no PFCP message; an empty Buf would tell the loop that the receiver has closed
+			continue
+		}
 		msgBuf := make([]byte, n)
 		copy(msgBuf, buf)
 		select {
